@@ -14,11 +14,29 @@ PLAN: dict = {}           # optional fault plan {"name": model name, "step": i}
 CHANGES: list = []        # (model name, step, sorted changed bucket names, snapshot after the model) when track=True
 
 
+REUSE: dict = {}          # (model, bucket) -> buffer kept and re-used by a writer with option "reuse"
+
+
 def reset():
     TRACE.clear()
     SNAPS.clear()
     PLAN.clear()
     CHANGES.clear()
+    REUSE.clear()
+
+
+def _assign(detector, bucket, values, opt):
+    """Assign `values` to a bucket.  With option "reuse" the model keeps ONE buffer per bucket for the whole run,
+    overwrites it in place at every step and hands that same array object to the container (a model is free to do
+    so): a result that aliases the stored array instead of copying it shows the values of the following step."""
+    if opt.get("reuse"):
+        key = (detector.current_running_model_name, bucket)
+        buf = REUSE.get(key)
+        if buf is None or buf.shape != values.shape or buf.dtype != values.dtype:
+            buf = REUSE[key] = np.empty_like(values)
+        buf[...] = values
+        values = buf
+    getattr(detector, bucket).array = values
 
 
 class PlannedFailure(Exception):
@@ -259,13 +277,13 @@ def write(detector, spec, salt=0, spec_odd=None, track=False):
             if opt.get("acc"):
                 old = container_value(detector.pixel)         # robust against an uninitialised pixel bucket
                 base = np.zeros(shape) if old is None else np.asarray(old, dtype="float64")
-                detector.pixel.array = (base + v).astype(dt)
+                _assign(detector, "pixel", (base + v).astype(dt), opt)
             else:
-                detector.pixel.array = v.astype(dt)
+                _assign(detector, "pixel", v.astype(dt), opt)
         elif b == "signal":
-            detector.signal.array = (value_for("signal", st, shape, salt) * mul).astype(opt.get("dtype", "float64"))
+            _assign(detector, "signal", (value_for("signal", st, shape, salt) * mul).astype(opt.get("dtype", "float64")), opt)
         elif b == "image":
-            detector.image.array = image_values(opt.get("vals", "ramp"), opt.get("dtype", "uint16"), st, shape, salt)
+            _assign(detector, "image", image_values(opt.get("vals", "ramp"), opt.get("dtype", "uint16"), st, shape, salt), opt)
         elif b == "scene":
             if opt is not False and spec[b]:
                 detector.scene.add_source(scene_source(step, salt))
